@@ -86,7 +86,7 @@ theorem invL_iff {ic : Bool} {cs : List (Item ι V)} : invL ic cs = true ↔ ∀
   | nil => simp [invL]
   | cons c cs ih => simp [invL, ih]
 
-theorem retainL_eq (cs : List (Item ι V)) (f : ι → V → Bool) :
+theorem retainL_eq (cs : List (Item ι V)) (f : ι → V → Option V) :
     retainL cs f = cs.flatMap (fun c => keepNonEmpty (c.retain f)) := by
   induction cs with
   | nil => simp [retainL]
